@@ -759,7 +759,8 @@ impl LunarDay {
     let a_month: isize = self.get_month();
     let b_month: isize = target.get_month();
     if a_month != b_month {
-      return a_month.abs() < b_month.abs();
+      // 闰月排在同名月份之后，按月份在当年的位置比较
+      return self.month.get_index_in_year() < target.get_lunar_month().get_index_in_year();
     }
     self.day < target.get_day()
   }
@@ -773,7 +774,8 @@ impl LunarDay {
     let a_month: isize = self.get_month();
     let b_month: isize = target.get_month();
     if a_month != b_month {
-      return a_month.abs() >= b_month.abs();
+      // 闰月排在同名月份之后，按月份在当年的位置比较
+      return self.month.get_index_in_year() > target.get_lunar_month().get_index_in_year();
     }
     self.day > target.get_day()
   }
